@@ -16,6 +16,12 @@ type SimStore struct {
 	Inner  queue.Store
 	Before func(method string) error
 	After  func(method string)
+
+	// Optional observers (called after the inner call returned, before After).
+	OnEnqueue func(envs []queue.Envelope, batch bool, n int, err error)
+	OnDequeue func(req queue.DequeueRequest, resp queue.DequeueResponse, err error)
+	OnLease   func(method string, ids []string, d time.Duration, reason string, res *queue.LeaseBatchResult, err error)
+	OnAttempt func(a queue.DeliveryAttempt, err error)
 }
 
 func (s *SimStore) pre(m string) error {
@@ -36,6 +42,9 @@ func (s *SimStore) Enqueue(env queue.Envelope) error {
 		return err
 	}
 	err := s.Inner.Enqueue(env)
+	if s.OnEnqueue != nil {
+		s.OnEnqueue([]queue.Envelope{env}, false, 0, err)
+	}
 	s.post("Enqueue")
 	return err
 }
@@ -45,16 +54,22 @@ func (s *SimStore) EnqueueBatch(items []queue.Envelope) (int, error) {
 		return 0, err
 	}
 	n, err := s.Inner.(queue.BatchEnqueuer).EnqueueBatch(items)
+	if s.OnEnqueue != nil {
+		s.OnEnqueue(items, true, n, err)
+	}
 	s.post("EnqueueBatch")
 	return n, err
 }
 
 func (s *SimStore) Dequeue(req queue.DequeueRequest) (queue.DequeueResponse, error) {
-	if err := s.pre("Dequeue"); err != nil {
+	if err := s.pre("Dequeue:" + req.Route); err != nil {
 		return queue.DequeueResponse{}, err
 	}
 	req.MaxWait = 0
 	r, err := s.Inner.Dequeue(req)
+	if s.OnDequeue != nil {
+		s.OnDequeue(req, r, err)
+	}
 	s.post("Dequeue")
 	return r, err
 }
@@ -64,6 +79,9 @@ func (s *SimStore) Ack(id string) error {
 		return err
 	}
 	err := s.Inner.Ack(id)
+	if s.OnLease != nil {
+		s.OnLease("Ack", []string{id}, 0, "", nil, err)
+	}
 	s.post("Ack")
 	return err
 }
@@ -73,6 +91,9 @@ func (s *SimStore) Nack(id string, d time.Duration) error {
 		return err
 	}
 	err := s.Inner.Nack(id, d)
+	if s.OnLease != nil {
+		s.OnLease("Nack", []string{id}, d, "", nil, err)
+	}
 	s.post("Nack")
 	return err
 }
@@ -82,6 +103,9 @@ func (s *SimStore) Extend(id string, d time.Duration) error {
 		return err
 	}
 	err := s.Inner.Extend(id, d)
+	if s.OnLease != nil {
+		s.OnLease("Extend", []string{id}, d, "", nil, err)
+	}
 	s.post("Extend")
 	return err
 }
@@ -91,6 +115,9 @@ func (s *SimStore) MarkDead(id string, reason string) error {
 		return err
 	}
 	err := s.Inner.MarkDead(id, reason)
+	if s.OnLease != nil {
+		s.OnLease("MarkDead", []string{id}, 0, reason, nil, err)
+	}
 	s.post("MarkDead")
 	return err
 }
@@ -100,6 +127,9 @@ func (s *SimStore) AckBatch(ids []string) (queue.LeaseBatchResult, error) {
 		return queue.LeaseBatchResult{}, err
 	}
 	r, err := s.Inner.(queue.LeaseBatchStore).AckBatch(ids)
+	if s.OnLease != nil {
+		s.OnLease("AckBatch", ids, 0, "", &r, err)
+	}
 	s.post("AckBatch")
 	return r, err
 }
@@ -109,6 +139,9 @@ func (s *SimStore) NackBatch(ids []string, d time.Duration) (queue.LeaseBatchRes
 		return queue.LeaseBatchResult{}, err
 	}
 	r, err := s.Inner.(queue.LeaseBatchStore).NackBatch(ids, d)
+	if s.OnLease != nil {
+		s.OnLease("NackBatch", ids, d, "", &r, err)
+	}
 	s.post("NackBatch")
 	return r, err
 }
@@ -118,6 +151,9 @@ func (s *SimStore) MarkDeadBatch(ids []string, reason string) (queue.LeaseBatchR
 		return queue.LeaseBatchResult{}, err
 	}
 	r, err := s.Inner.(queue.LeaseBatchStore).MarkDeadBatch(ids, reason)
+	if s.OnLease != nil {
+		s.OnLease("MarkDeadBatch", ids, 0, reason, &r, err)
+	}
 	s.post("MarkDeadBatch")
 	return r, err
 }
@@ -235,6 +271,9 @@ func (s *SimStore) RecordAttempt(a queue.DeliveryAttempt) error {
 		return err
 	}
 	err := s.Inner.RecordAttempt(a)
+	if s.OnAttempt != nil {
+		s.OnAttempt(a, err)
+	}
 	s.post("RecordAttempt")
 	return err
 }
